@@ -432,7 +432,7 @@ class MemoryFS(FS):
             dir_path, dir_name = split(_path)
 
             parent_dir = self._get_dir_entry(dir_path)
-            if parent_dir is None:
+            if parent_dir is None or not parent_dir.is_dir:
                 raise errors.ResourceNotFound(path)
 
             dir_entry = parent_dir.get_entry(dir_name)
